@@ -1,4 +1,9 @@
 import Martian.Lexer
+import Martian.Regex
+import Martian.LexerId
+import Martian.FormatExp
+import Martian.Tokenizer
+import Martian.LexerActions
 import Gen.Facts
 import Driver.Util
 
@@ -24,8 +29,110 @@ def actionStr : Action (Bytes × List Bytes) → String
   | .error => "error"
   | .panic => "panic"
 
+def listStr (xs : List String) : String :=
+  if xs.isEmpty then "." else " ".intercalate xs
+
+/-- `C08.lex`: the token stream, the comment blocks and the final position of
+the model's scanner loop -/
+def lexStr (b : Bytes) : String :=
+  let raw := Martian.Tokenizer.lexAllRaw b
+  let T := Martian.Tokenizer.genTables
+  let toks := raw.1.filter fun t => !Martian.Tokenizer.isTrivia T t.id
+  let cms := (raw.1.filter fun t => t.id != Martian.Tokenizer.skipId T && t.id == Martian.Tokenizer.commentId T).map
+    fun t => (t.line, t.col, Martian.Tokenizer.trimRight t.text.length t.text)
+  listStr (toks.map fun t => s!"{t.id}:{hexOfBytes t.text}:{t.line}:{t.col}") ++ " | " ++
+  listStr (cms.map fun c => s!"{c.1}:{c.2.1}:{hexOfBytes c.2.2}") ++ " | " ++
+  toString (b.length - raw.2.length)
+
+/-! action level (`Martian.LexerActions`) -/
+open Martian.LexerActions in
+def siteOf : String → Option Site
+  | "float32" => some .float32 | "threads" => some .threads | "mem_gb" => some .memGb | "vmem_gb" => some .vmemGb
+  | "special" => some .special | "include" => some .incl | "help" => some .help | "outname" => some .outName
+  | "mapkey" => some .mapKey | "src" => some .src | "valexp" => some .valExp
+  | _ => none
+
+open Martian.LexerActions in
+def kindOf : String → Option Kind
+  | "NUM_INT" => some .numInt | "NUM_FLOAT" => some .numFloat | "LITSTRING" => some .litString
+  | _ => none
+
+open Martian.LexerActions in
+def valStr : Val → String
+  | .int i => "int " ++ toString i
+  | .float _ => "float"
+  | .f32 (some i) => "f32 " ++ toString i
+  | .f32 none => "f32 ?"
+  | .str b => "str " ++ hexOfBytes b
+  | .src p args => "src " ++ hexOfBytes p ++ " " ++ hexList args
+
+def actValStr : Action Martian.LexerActions.Val → String
+  | .ok v => "ok " ++ valStr v
+  | .error => "error"
+  | .panic => "panic"
+
+def actIntStr : Action Int → String
+  | .ok v => "ok " ++ toString v
+  | .error => "error"
+  | .panic => "panic"
+
+/-! Comparison of C09's reduced tokenizer model (`Martian.FormatExp.lexAll`, value expressions
+only) with the full tokenizer model. -/
+
+def nameOfId (id : Nat) : String :=
+  match Gen.tokIds.find? (fun p => p.2 == id) with
+  | some p => p.1
+  | none => ""
+
+/-- the `FormatExp.Tok` a token of the full model corresponds to; `none` = the
+reduced model has no such token (`@include`, INVALID) -/
+def toFx (t : Martian.Tokenizer.Tok) : Option Martian.FormatExp.Tok :=
+  if t.id < 128 then some (.punct (UInt8.ofNat t.id))
+  else
+    let n := nameOfId t.id
+    if n == "LITSTRING" then some (.str t.text)
+    else if n == "NUM_INT" then some (.int t.text)
+    else if n == "NUM_FLOAT" then some (.float t.text)
+    else if n == "ID" then some (.id t.text)
+    else if n == "TRUE" then some .kTrue
+    else if n == "FALSE" then some .kFalse
+    else if n == "NULL" then some .kNull
+    else if n == "SELF" then some .kSelf
+    else if n == "DEFAULT" then some .kDefault
+    else if n == "INVALID" || n == "INCLUDE_DIRECTIVE" || n == "" then none
+    else if Martian.FormatExp.idTokens.contains n then some (.id t.text)
+    else some (.reserved t.text)
+
+/-- what the reduced model should return according to the full model -/
+def fxExpected (src : Bytes) : Option (List Martian.FormatExp.Tok) :=
+  (Martian.Tokenizer.lexAll src).mapM toFx
+
+/-- is there a byte ≥ 0x80 outside the string literals (per the full model's
+token stream, trivia and the unconsumed rest included)?  The reduced model
+declares such input invalid; the code accepts Unicode white space there and
+ends a comment before a rune decoding to U+FFFD. -/
+def nonAsciiOutsideStrings (src : Bytes) : Bool :=
+  let raw := Martian.Tokenizer.lexAllRaw src
+  raw.2.any (· ≥ 0x80) ||
+  raw.1.any fun t => nameOfId t.id != "LITSTRING" && t.text.any (· ≥ 0x80)
+
 def handle (op : String) (args : List String) : Option String :=
   match op, args with
+  -- FormatExp.lexAll (C09's reduced tokenizer) vs the full tokenizer model
+  | "fxcmp", [s] => do
+    let b ← bytesOfHex s
+    let same := Martian.FormatExp.lexAll b == fxExpected b
+    pure ((if same then "same" else "differ") ++ " " ++ boolStr (nonAsciiOutsideStrings b) ++ " " ++
+      (match Martian.FormatExp.lexAll b with | some l => toString l.length | none => "none") ++ " " ++
+      (match fxExpected b with | some l => toString l.length | none => "none"))
+  -- the hand-written identifier recogniser
+  | "id", [s] => do
+    let b ← bytesOfHex s
+    pure (optTok (matchId b))
+  -- every rune in [0x80, 0x10FFFF] the model takes for white space
+  | "unispaces", [] =>
+    pure (" ".intercalate (((List.range 0x110000).filter fun r => r ≥ 0x80 && Martian.Tokenizer.isUniSpace r).map
+      fun r => String.ofList (Nat.toDigits 16 r)))
   | "rules", [] =>
     pure (boolStr (Gen.tokIntRegex == intRuleSrc) ++ " " ++
           boolStr (Gen.tokFloatRegex == floatRuleSrc) ++ " " ++
@@ -67,6 +174,55 @@ def handle (op : String) (args : List String) : Option String :=
   | "src0", [s] => do
     let b ← bytesOfHex s
     pure (actionStr (srcActionUnchecked b))
+  -- generic regex matcher on a regex SOURCE text (hex) and an input
+  | "re", [src, s] => do
+    let rs ← bytesOfHex src
+    let b ← bytesOfHex s
+    match Martian.Regex.parseCodes (rs.map UInt8.toNat) with
+    | none => pure "bad"
+    | some r => pure (optTok (Martian.Regex.pmatch r b))
+  -- the regenerated rule regexes through the generic matcher
+  | "rule", [name, s] => do
+    let b ← bytesOfHex s
+    let src ← (match name with
+      | "int" => some Gen.tokIntRegex
+      | "float" => some Gen.tokFloatRegex
+      | "string" => some Gen.tokStringRegex
+      | "id" => some Gen.tokIdRegex
+      | _ => none)
+    match Martian.Regex.parse src with
+    | none => pure "bad"
+    | some r => pure (optTok (Martian.Regex.pmatch r b))
+  -- the whole tokenizer: token stream of the scanner loop / one nextToken call
+  | "lex", [s] => do
+    let b ← bytesOfHex s
+    pure (lexStr b)
+  -- the regenerated token constants, `NAME=id` joined by spaces
+  | "tokids", [] =>
+    pure (listStr (Gen.tokIds.map fun (n, i) => n ++ "=" ++ toString i))
+  | "next", [s] => do
+    let b ← bytesOfHex s
+    let nt := Martian.Tokenizer.nextToken b
+    pure (toString nt.1 ++ " " ++ hexOfBytes nt.2)
+  -- action level: `act <site> <kind> <hex token>`; `arr <number of [] pairs>`; `mapdim <inner dims>`;
+  -- `f32u <hex>` = float_32 on a NUM_FLOAT written with the panicking converter
+  | "act", [site, kind, s] => do
+    let st ← siteOf site
+    let k ← kindOf kind
+    let b ← bytesOfHex s
+    pure (actValStr (Martian.LexerActions.act st k b))
+  | "f32u", [s] => do
+    let b ← bytesOfHex s
+    pure (actValStr (Martian.LexerActions.Action.map .f32 (Martian.LexerActions.float32FloatUnchecked b)))
+  | "arr", [n] => do
+    let k ← n.toNat?
+    pure (actIntStr (Martian.LexerActions.arrList k))
+  | "arr0", [n] => do
+    let k ← n.toNat?
+    pure (actIntStr (Martian.LexerActions.arrListUnguarded k))
+  | "mapdim", [n] => do
+    let k ← n.toNat?
+    pure (toString (Martian.LexerActions.mapDim k))
   | _, _ => none
 
 end Driver.C08
